@@ -25,7 +25,14 @@ type ChunkReader struct {
 	Pos    int
 	Chunks []int
 	Reads  int
+	// EOFWithData: the Read that delivers the last byte returns io.EOF together with it (the io.Reader contract allows both).
+	EOFWithData bool
+	// Broken / FailAt: once FailAt bytes were delivered every Read fails with an error that is not io.EOF.
+	Broken bool
+	FailAt int
 }
+
+var errBroken = errors.New("reader broke")
 
 func (c *ChunkReader) Read(p []byte) (int, error) {
 	c.Reads++
@@ -34,6 +41,9 @@ func (c *ChunkReader) Read(p []byte) (int, error) {
 	}
 	if c.Pos >= len(c.Data) {
 		return 0, io.EOF
+	}
+	if c.Broken && c.Pos >= c.FailAt {
+		return 0, errBroken
 	}
 	n := len(p)
 	if len(c.Chunks) > 0 {
@@ -45,10 +55,36 @@ func (c *ChunkReader) Read(p []byte) (int, error) {
 	if rem := len(c.Data) - c.Pos; rem < n {
 		n = rem
 	}
+	if c.Broken && c.FailAt-c.Pos < n {
+		n = c.FailAt - c.Pos
+	}
 	copy(p, c.Data[c.Pos:c.Pos+n])
 	c.Pos += n
+	if c.EOFWithData && c.Pos == len(c.Data) {
+		return n, io.EOF
+	}
 
 	return n, nil
+}
+
+// NewReader builds the reader of a request from its reader token "CHUNKS[!][@K]".
+func NewReader(tok string, data []byte) *ChunkReader {
+	rd := &ChunkReader{Data: data}
+	if i := strings.Index(tok, "@"); i >= 0 {
+		k, err := strconv.Atoi(tok[i+1:])
+		if err != nil {
+			panic("bad reader token " + tok)
+		}
+		rd.Broken, rd.FailAt = true, k
+		tok = tok[:i]
+	}
+	if strings.HasSuffix(tok, "!") {
+		rd.EOFWithData = true
+		tok = tok[:len(tok)-1]
+	}
+	rd.Chunks = ParseChunks(tok)
+
+	return rd
 }
 
 func (c *ChunkReader) Seek(offset int64, whence int) (int64, error) {
@@ -173,6 +209,13 @@ func ParseR(toks []string) ([]ROp, []string) {
 			item, rest := ParseR(toks[3:])
 			out = append(out, ROp{K: t, LPt: toks[1], Item: item})
 			toks = rest
+		case "ofr":
+			if toks[1] != "(" {
+				panic("ofr needs ( program )")
+			}
+			item, rest := ParseR(toks[2:])
+			out = append(out, ROp{K: t, Item: item})
+			toks = rest
 		default:
 			panic("unknown reader op " + t)
 		}
@@ -197,6 +240,8 @@ func ShowR(p []ROp) string {
 			s = append(s, o.K, o.LPt, o.From)
 		case "coll":
 			s = append(s, o.K, o.LPt, "(", ShowR(o.Item), ")")
+		case "ofr":
+			s = append(s, o.K, "(", ShowR(o.Item), ")")
 		}
 	}
 
@@ -207,12 +252,59 @@ func ShowR(p []ROp) string {
 type RTrace struct {
 	Vals  []string
 	Iters int
+	k     int // rotates signed / unsigned destination types of Read[T]
+	// every slice a helper (or a parser that keeps its input) handed out, with its content at that time: results
+	// must stay what they were when later reads happen on the same reader ("retained-result-changed")
+	kept []kept
+}
+
+type kept struct {
+	b    []byte
+	snap string
+	what string
+}
+
+// Changed is set by the last RunR when a result that was handed out earlier changed under a later read
+// (the independent aliasing oracle; read and reset with TakeChanged).
+var changed string
+
+func TakeChanged() string {
+	c := changed
+	changed = ""
+
+	return c
+}
+
+func (tr *RTrace) keep(b []byte, what string) {
+	tr.kept = append(tr.kept, kept{b: b, snap: string(b), what: what})
+}
+
+// recheck compares every retained result with its content at the time it was returned.
+func (tr *RTrace) recheck(after string) {
+	for i, k := range tr.kept {
+		if string(k.b) != k.snap && changed == "" {
+			changed = fmt.Sprintf("result #%d (%s, %d bytes) was %x when it was returned and is %x after a later %s on the same reader",
+				i, k.what, len(k.b), clipB([]byte(k.snap)), clipB(k.b), after)
+		}
+	}
+}
+
+func clipB(b []byte) []byte {
+	if len(b) > 48 {
+		return b[:48]
+	}
+
+	return b
 }
 
 func fromBytes(kind string) func([]byte) ([]byte, int, error) {
 	switch kind {
 	case "id":
+		// keeps its input slice (what any byte-slice based type does): the result aliases whatever ReadObject handed in
 		return func(b []byte) ([]byte, int, error) { return b, len(b), nil }
+	case "idc":
+		// the copying twin
+		return func(b []byte) ([]byte, int, error) { return append([]byte(nil), b...), len(b), nil }
 	case "u64":
 		return func(b []byte) ([]byte, int, error) {
 			v, n, err := typeutils.Uint64FromBytes(b)
@@ -252,24 +344,55 @@ func le(v uint64, w int) []byte {
 // caller of the helpers would.
 func RunR(p []ROp, r io.ReadSeeker, tr *RTrace) error {
 	for _, o := range p {
+		if err := runR1(o, r, tr); err != nil {
+			tr.recheck(o.K + " (failed)")
+
+			return err
+		}
+		tr.recheck(o.K)
+	}
+
+	return nil
+}
+
+func runR1(o ROp, r io.ReadSeeker, tr *RTrace) error {
+	{
 		switch o.K {
 		case "num":
 			var v uint64
 			var err error
-			switch o.N {
-			case 1:
+			tr.k++
+			signed := tr.k%2 == 1
+			switch {
+			case o.N == 1 && signed:
+				var x int8
+				x, err = stream.Read[int8](r)
+				v = uint64(uint8(x))
+			case o.N == 1:
 				var x uint8
 				x, err = stream.Read[uint8](r)
 				v = uint64(x)
-			case 2:
+			case o.N == 2 && signed:
+				var x int16
+				x, err = stream.Read[int16](r)
+				v = uint64(uint16(x))
+			case o.N == 2:
 				var x uint16
 				x, err = stream.Read[uint16](r)
 				v = uint64(x)
-			case 4:
+			case o.N == 4 && signed:
+				var x int32
+				x, err = stream.Read[int32](r)
+				v = uint64(uint32(x))
+			case o.N == 4:
 				var x uint32
 				x, err = stream.Read[uint32](r)
 				v = uint64(x)
-			case 8:
+			case o.N == 8 && signed:
+				var x int64
+				x, err = stream.Read[int64](r)
+				v = uint64(x)
+			case o.N == 8:
 				v, err = stream.Read[uint64](r)
 			default:
 				panic("bad num width")
@@ -316,24 +439,28 @@ func RunR(p []ROp, r io.ReadSeeker, tr *RTrace) error {
 			if err != nil {
 				return err
 			}
+			tr.keep(b, "ReadBytes")
 			tr.Vals = append(tr.Vals, hx.Hex(b))
 		case "bws":
 			b, err := stream.ReadBytesWithSize(r, LP(o.LPt))
 			if err != nil {
 				return err
 			}
+			tr.keep(b, "ReadBytesWithSize")
 			tr.Vals = append(tr.Vals, hx.Hex(b))
 		case "obj":
 			b, err := stream.ReadObject(r, o.N, fromBytes(o.From))
 			if err != nil {
 				return err
 			}
+			tr.keep(b, "ReadObject/"+o.From)
 			tr.Vals = append(tr.Vals, hx.Hex(b))
 		case "ows":
 			b, err := stream.ReadObjectWithSize(r, LP(o.LPt), fromBytes(o.From))
 			if err != nil {
 				return err
 			}
+			tr.keep(b, "ReadObjectWithSize/"+o.From)
 			tr.Vals = append(tr.Vals, hx.Hex(b))
 		case "peek":
 			n, err := stream.PeekSize(r, LP(o.LPt))
@@ -346,6 +473,14 @@ func RunR(p []ROp, r io.ReadSeeker, tr *RTrace) error {
 				tr.Iters++
 
 				return RunR(o.Item, r, tr)
+			})
+			if err != nil {
+				return err
+			}
+		case "ofr":
+			// ReadObjectFromReader: the callback reads its object from the same reader with the helpers
+			_, err := stream.ReadObjectFromReader(r, func(rs io.ReadSeeker) (struct{}, error) {
+				return struct{}{}, RunR(o.Item, rs, tr)
 			})
 			if err != nil {
 				return err
@@ -365,13 +500,12 @@ func ExecSR(f []string) string { return PrepSR(f)() }
 // allocations measures the readers and not the parsing of the request (a 1-byte chunk list for 64 KiB of
 // data is itself a megabyte of tokens).
 func PrepSR(f []string) func() string {
-	chunks := ParseChunks(f[1])
-	data := hx.UnHex(f[2])
+	rd := NewReader(f[1], hx.UnHex(f[2]))
 	prog, _ := ParseR(f[3:])
 
 	return func() string {
 		out := ""
-		if p := hx.Safely(func() { out = runSR(chunks, data, prog) }); p != "" {
+		if p := hx.Safely(func() { out = runSR(rd, prog) }); p != "" {
 			return "panic"
 		}
 
@@ -383,11 +517,10 @@ func PrepSR(f []string) func() string {
 func ExecSRRaw(f []string) string {
 	prog, _ := ParseR(f[3:])
 
-	return runSR(ParseChunks(f[1]), hx.UnHex(f[2]), prog)
+	return runSR(NewReader(f[1], hx.UnHex(f[2])), prog)
 }
 
-func runSR(chunks []int, data []byte, prog []ROp) string {
-	rd := &ChunkReader{Data: data, Chunks: chunks}
+func runSR(rd *ChunkReader, prog []ROp) string {
 	tr := &RTrace{}
 	err := RunR(prog, rd, tr)
 	if err != nil {
@@ -615,7 +748,6 @@ func ReadOf(p []WOp) ([]ROp, []string) {
 // chunking reader over (written ++ tail).  Answer: "ok WRITTENHEX CONSUMED VALS" | "werr" | "rerr CONSUMED" | "panic".
 // want/got are returned for the independent round-trip oracle.
 func ExecRT(f []string) (answer string, written []byte, want []string, got []string, consumed int) {
-	chunks := ParseChunks(f[1])
 	tail := hx.UnHex(f[2])
 	wp := ParseW(f[3:])
 	buf := stream.NewByteBuffer()
@@ -629,7 +761,7 @@ func ExecRT(f []string) (answer string, written []byte, want []string, got []str
 	b, _ := buf.Bytes()
 	written = append([]byte(nil), b...)
 	rp, want := ReadOf(wp)
-	rd := &ChunkReader{Data: append(append([]byte(nil), written...), tail...), Chunks: chunks}
+	rd := NewReader(f[1], append(append([]byte(nil), written...), tail...))
 	tr := &RTrace{}
 	var rerr error
 	if p := hx.Safely(func() { rerr = RunR(rp, rd, tr) }); p != "" {
@@ -644,16 +776,18 @@ func ExecRT(f []string) (answer string, written []byte, want []string, got []str
 
 // RWInfo is what an in-place write/read-back observed (for the oracles of harness/c01c).
 type RWInfo struct {
-	Storage  []byte   // the whole buffer after phase 2
-	Pos      int      // the write position after phase 2
-	Off      int      // where phase 2 started
-	Want     []string // the values phase 2 wrote
-	Got      []string // the values read back
-	Consumed int
-	Enc1     []byte // what phase 1 / phase 2 write into a fresh append-only buffer
-	Enc2     []byte
-	Init     int
-	Ops2     int
+	Storage   []byte   // the whole buffer after phase 2
+	Pos       int      // the write position after phase 2
+	Off       int      // where phase 2 started (the position the seek call returned)
+	OffWant   int      // where the seek had to land
+	SeekMoved bool     // a refused seek changed the position
+	Want      []string // the values phase 2 wrote
+	Got       []string // the values read back
+	Consumed  int
+	Enc1      []byte // what phase 1 / phase 2 write into a fresh append-only buffer
+	Enc2      []byte
+	Init      int
+	Ops2      int
 }
 
 func splitBar(f []string) ([]string, []string) {
@@ -690,21 +824,54 @@ func ExecRW(f []string) (string, *RWInfo) {
 	if len(rest) < 2 || rest[1] != "|" {
 		panic("rw needs phase1 | OFF | phase2")
 	}
-	off, err := strconv.Atoi(rest[0])
+	// the seek token: "N" = stream.GoTo(N), "c+N" / "c-N" = stream.Skip(+-N), "e+N" / "e-N" = Seek(+-N, io.SeekEnd)
+	tok := rest[0]
+	whence, num := io.SeekStart, tok
+	switch tok[0] {
+	case 'c':
+		whence, num = io.SeekCurrent, tok[1:]
+	case 'e':
+		whence, num = io.SeekEnd, tok[1:]
+	}
+	delta, err := strconv.Atoi(strings.TrimPrefix(num, "+"))
 	if err != nil {
 		panic("bad offset")
 	}
 	p1, p2 := ParseW(t1), ParseW(rest[2:])
-	info := &RWInfo{Off: off, Init: init, Ops2: len(p2), Enc1: freshEnc(p1), Enc2: freshEnc(p2)}
+	info := &RWInfo{Init: init, Ops2: len(p2), Enc1: freshEnc(p1), Enc2: freshEnc(p2)}
+	// where the seek must land, by the harness's own arithmetic: phase 1 wrote Enc1 from offset 0 of INIT bytes of storage
+	switch whence {
+	case io.SeekStart:
+		info.OffWant = delta
+	case io.SeekCurrent:
+		info.OffWant = len(info.Enc1) + delta
+	default:
+		info.OffWant = max(init, len(info.Enc1)) + delta
+	}
 	buf := stream.NewByteBuffer(init)
-	var werr error
+	var werr, serr error
 	if p := hx.Safely(func() {
 		if werr = RunW(p1, buf); werr != nil {
 			return
 		}
-		if _, werr = stream.GoTo(buf, int64(off)); werr != nil {
+		var np int64
+		switch whence {
+		case io.SeekStart:
+			np, serr = stream.GoTo(buf, int64(delta))
+		case io.SeekCurrent:
+			np, serr = stream.Skip(buf, int64(delta))
+		default:
+			np, serr = buf.Seek(int64(delta), io.SeekEnd)
+		}
+		if serr != nil {
+			// a refused seek must leave the position where it was
+			if cur, _ := stream.Offset(buf); int(cur) != len(info.Enc1) {
+				info.SeekMoved = true
+			}
+
 			return
 		}
+		info.Off = int(np)
 		werr = RunW(p2, buf)
 	}); p != "" {
 		return "panic", info
@@ -712,6 +879,10 @@ func ExecRW(f []string) (string, *RWInfo) {
 	if werr != nil {
 		return "werr", info
 	}
+	if serr != nil {
+		return "serr", info
+	}
+	off := info.Off
 	pos, _ := stream.Offset(buf)
 	b, _ := buf.Bytes()
 	info.Storage = append([]byte(nil), b...)
@@ -730,10 +901,10 @@ func ExecRW(f []string) (string, *RWInfo) {
 	}
 	info.Got, info.Consumed = tr.Vals, rd.Pos
 	if rerr != nil {
-		return fmt.Sprintf("rerr %s %d %d", hx.Hex(info.Storage), info.Pos, rd.Pos), info
+		return fmt.Sprintf("rerr %s %d %d %d", hx.Hex(info.Storage), off, info.Pos, rd.Pos), info
 	}
 
-	return fmt.Sprintf("ok %s %d %d %s", hx.Hex(info.Storage), info.Pos, rd.Pos, ShowVals(tr.Vals)), info
+	return fmt.Sprintf("ok %s %d %d %d %s", hx.Hex(info.Storage), off, info.Pos, rd.Pos, ShowVals(tr.Vals)), info
 }
 
 // Overlay is what in-place writing must amount to: the bytes e written over the storage at offset off
@@ -755,4 +926,67 @@ func Overlay(storage []byte, off int, e []byte, pad bool) []byte {
 	}
 
 	return out
+}
+
+// ExecSK executes "sk DATAHEX sprog...": reader programs over a stream.ByteReader between stream.GoTo / Skip /
+// Offset calls, with ByteReader.BytesRead observed.  Tokens: "run ( prog )", "goto N", "skip N", "off", "br".
+// Answer: "ok POS VALS" | "err POS VALS" | "panic" (POS = the reader's offset at the end / at the failure).
+func ExecSK(f []string) string {
+	out := ""
+	if p := hx.Safely(func() { out = execSK(f) }); p != "" {
+		return "panic"
+	}
+
+	return out
+}
+
+func execSK(f []string) string {
+	data := hx.UnHex(f[1])
+	rd := stream.NewByteReader(data)
+	tr := &RTrace{}
+	toks := f[2:]
+	fail := func() string {
+		pos, _ := stream.Offset(rd)
+
+		return fmt.Sprintf("err %d %s", pos, ShowVals(tr.Vals))
+	}
+	for len(toks) > 0 {
+		switch toks[0] {
+		case "run":
+			prog, rest := ParseR(toks[2:])
+			toks = rest
+			if err := RunR(prog, rd, tr); err != nil {
+				return fail()
+			}
+		case "goto", "skip":
+			n, err := strconv.Atoi(toks[1])
+			if err != nil {
+				panic("bad seek distance")
+			}
+			if toks[0] == "goto" {
+				_, err = stream.GoTo(rd, int64(n))
+			} else {
+				_, err = stream.Skip(rd, int64(n))
+			}
+			toks = toks[2:]
+			if err != nil {
+				return fail()
+			}
+		case "off":
+			pos, err := stream.Offset(rd)
+			if err != nil {
+				return fail()
+			}
+			tr.Vals = append(tr.Vals, "#"+strconv.FormatInt(pos, 10))
+			toks = toks[1:]
+		case "br":
+			tr.Vals = append(tr.Vals, "#"+strconv.Itoa(rd.BytesRead()))
+			toks = toks[1:]
+		default:
+			panic("unknown seek program token " + toks[0])
+		}
+	}
+	pos, _ := stream.Offset(rd)
+
+	return fmt.Sprintf("ok %d %s", pos, ShowVals(tr.Vals))
 }
